@@ -28,7 +28,8 @@ Names  == {n \in StringsUpTo(Tokens, MaxTok) \cup Shapes : ValidName(n)}
 Names1 == {n \in Tokens \cup Shapes : ValidName(n)}
 Inner  == {n \in InnerTokens : ValidName(n)}
 \* a gophermap line cannot carry leading/trailing blanks of a selector (every field is stripped)
-MapOk(m) == Strip(m) = m
+\* and what it lists is the author's text, not a name the server generated: names the selector filter refuses stay out
+MapOk(m) == Strip(m) = m /\ Secure("/" \o m)
 
 Leaf(k, n)          == [k |-> k, n |-> n, ik |-> "none", m |-> "in"]
 Cont(k, n, ik, m)   == [k |-> k, n |-> n, ik |-> ik, m |-> m]
